@@ -570,6 +570,16 @@ func (vc *VC) merge(states ...*State) *State {
 		n := fmt.Sprintf("%s!%d", smtName(k), vc.nfresh)
 		vc.consts = append(vc.consts, fmt.Sprintf("(declare-const %s %s)", n, sortName))
 		vc.facts = append(vc.facts, sEq(n, expr))
+		// pointwise form of the merge, so that a read of the merged heap brings up the corresponding reads of the
+		// branch heaps (quantified facts about a branch heap are triggered by reads of that heap only)
+		if strings.HasPrefix(sortName, "(Array ") && len(live) == 2 {
+			key := sortName[7:]
+			if i := strings.IndexByte(key, ' '); i >= 0 && !strings.HasPrefix(key, "(") {
+				key = key[:i]
+				a, _ := get(live[0])
+				vc.facts = append(vc.facts, fmt.Sprintf("(forall ((x!m %s)) (! (= (select %s x!m) (ite %s (select %s x!m) (select %s x!m))) :pattern ((select %s x!m))))", key, n, live[0].guard, a.S, last.S, n))
+			}
+		}
 		out.heaps[k] = Term{n, t0.Sort}
 	}
 	// names: keep only names whose var survived
